@@ -39,13 +39,13 @@ CHECKS = {
             "and kanata reports idle, on every further tick) for every physically consistent schedule within the instance bounds on one "
             "small instance per feature and per pairwise feature combination (layers, tap-hold variants, one-shot variants, tap-dance, "
             "chords v1, macros and their cancel forms, fork/switch, overrides, balanced virtual keys, hold-for-duration, on-idle, mouse "
-            "buttons, release-key/layer, rpt; recorded only: chords v2 overlap, dynamic macros cut off by the size limit); every model transition is replayed on the real code; model counterexamples, burst scripts "
+            "buttons, release-key/layer, rpt, caps-word; recorded only: chords v2 overlap, dynamic macros cut off by the size limit); every model transition is replayed on the real code; model counterexamples, burst scripts "
             "with the real capacities (queue wrap, >64 states, >8 tap-holds, >16 one-shots, >4 macros), hand-written configurations of "
             "the features outside L1 and random latch-free configurations over the whole action grammar (cfggen) with random consistent "
             "histories + Bound quiet ticks are recorded from the code and validated by TLC against P_C01.",
             "5 C01", TECH,
             BOUNDS + "; stacked one-shots <= 3 and overlapping macros <= 2 in the exhaustive instances; chords v2, defseq modes, zippychord, "
-            "caps-word, unmod, mouse move/scroll, dynamic macros only through recorded traces (exploration); idle not judged for "
+            "unmod, mouse move/scroll, dynamic macros only through recorded traces (exploration); idle not judged for "
             "configurations that can leave a dynamic-macro recording on; can_block observed, not judged"),
     "C02": ("exploration",
             "Every accepted configuration is run in watched worker subprocesses (panic, abort, stack overflow, a step over the watchdog or "
